@@ -42,6 +42,8 @@ RULE = ("bounded-rate event models from the shared generator (1-5 states incl. r
         "initial_time), parameters changed and restored, a deep copy of the configured instance taking over, a sibling instance (same or another definition) simulated in between, the first call repeated at the end "
         "and the last call repeated on a freshly built instance; every returned array is kept and compared again at the end, "
         "the caller's arrays and model.initial_state are compared with the harness's own copies after every call; "
+        "side effects the pure model excludes but the property does not state (caller's objects or model.initial_state written to, a "
+        "repeated call or a fresh instance not reproducing a call) are tags and broken correspondence, never violations; "
         "a case is non-trivial when some path has >= 5 accepted steps")
 ASSUMPTIONS = ["exponential variates are positive and fixed pre_tau is positive (hypotheses of path_times_increasing)",
                "termination in finitely many steps is a probability-one statement about the draw stream, not proved (path_exit_partial)",
